@@ -489,7 +489,9 @@ def roles_unit(isa):
         ex = Engine([REPO + "/" + f for f in ROLE_FILES])
         ex.no_init |= {"MachineModel", "ParserX86ATT", "ParserAArch64"}
         import itertools
-        for nops, found, mempos, equal, idiom in itertools.product((0, 1, 2, 3), ("full", "suffix", "regform", "regform-suffix", "none"), (None, "last", "first"), (False, True), (False, True)):
+        for nops, found, mempos, equal, idiom, upper in itertools.product((0, 1, 2, 3), ("full", "suffix", "regform", "regform-suffix", "none"), (None, "last", "first"), (False, True), (False, True), (False, True)):
+            if upper and (nops != 2 or equal or idiom):
+                continue  # mnemonic written in upper case (the mnemonic agrees case-insensitively, also for the suffix fall-backs): two-operand forms
             if nops == 0 and (mempos is not None or equal or idiom or found.startswith("regform")):
                 continue  # operand-less instruction (cltq, vzeroupper, pushfq ...): only its hidden operands have roles
             if found.startswith("regform") and mempos is None:
@@ -523,11 +525,13 @@ def roles_unit(isa):
                 e_ops = [new("RegisterOperand", name="gpr", source=SBool(srcb[i]), destination=SBool(dstb[i])) for i in range(nops)]
                 entry = new("InstructionForm", mnemonic="OP", operands=e_ops, hidden_operands=hidden, breaks_dependency_on_equal_operands=idiom)
                 full = "opq" if isa == "x86" else "op.s"
+                if upper:
+                    full = full.upper()
 
                 def get_instruction(ex_, so, a, kw):
                     name, operands = a
                     wild = any(isinstance(o, dict) for o in operands)
-                    short = name == "op"
+                    short = name.lower() == "op"
                     if found == "full" and not wild and not short:
                         return entry
                     if found == "suffix" and not wild and short:
@@ -596,7 +600,7 @@ def roles_unit(isa):
                     g.append(z3.BoolVal("performs_load" not in fl and "performs_store" not in fl))
                 return z3.And(g)
 
-            res.add_paths(paths, post, kind=f"{isa}/n{nops}/{found}/mem={mempos}/equal={int(equal)}/idiom={int(idiom)}", label="Pb")
+            res.add_paths(paths, post, kind=f"{isa}/n{nops}/{found}/mem={mempos}/equal={int(equal)}/idiom={int(idiom)}" + ("/upper-case" if upper else ""), label="Pb")
         return res
 
     return unit
